@@ -3,7 +3,7 @@
     Proofs: Proofs/ZeroRttProofs.v; models: Model/ZeroRtt.v, Model/FlowSend.v
     ([CODE_FIXED = true]: the model follows the repaired [StreamsState::zero_rtt_rejected]). *)
 From QV Require Import Lib.Tac Lib.Corr Model.FlowSend Model.ZeroRtt
-  Proofs.RangeSetProofs Proofs.FlowSendProofs Proofs.FlowSendFull Proofs.ZeroRttProofs.
+  Proofs.FlowRangeSet Proofs.FlowSendProofs Proofs.FlowSendFull Proofs.ZeroRttProofs.
 Open Scope Z_scope.
 
 (** Whole-record equality (every one of the 24 fields of the model state: [next], [max],
